@@ -358,8 +358,9 @@ RED = dict(int_lits=(-3,), real_lits=('0.5',), log_lits=(True,))
 def space(ctx):
     """List of work items, smallest first, and the bound description.
     quick:    <= 1 operator (2- and 3-child nodes), 2 operators with binary nodes, full leaf alphabet
-    thorough: <= 2 operators on the full alphabet; 3 operators (plain binary nodes + unary minus) on the
-              reduced alphabet; closure under SubstituteExpressionsMapper and simplify"""
+    thorough: <= 2 operators (binary nodes on the full alphabet, 2-3 child nodes on the reduced alphabet);
+              3 operators (int/real, plain binary nodes + unary minus) on the reduced alphabet;
+              closure under SubstituteExpressionsMapper and simplify"""
     items = []
     full = G.Enumerator(_CFG)
     plain = G.Enumerator(dict(_CFG, forms=('plain',)))
@@ -377,18 +378,32 @@ def space(ctx):
         plain = G.Enumerator(dict(_CFG, forms=('plain',), arities=(2,)))
         sub_types, sub_hosts, sim_sizes = 'ir', plain, (1,)
     else:
-        for n in (0, 1, 2):
+        for n in (0, 1):
             for T in 'irl':
                 items += [{'tree': t} for t in full.exactly(T, n)]
-        red3 = G.Enumerator(dict(_CFG, forms=('plain',), arities=(2,), cmp_types=('i',), **RED))
-        n3 = 0
+        binary = G.Enumerator(dict(_CFG, arities=(2,)))
+        red = G.Enumerator(dict(_CFG, **RED))
+        seen = set()
+        n2 = 0
         for T in 'irl':
+            for t in binary.exactly(T, 2) + red.exactly(T, 2):
+                k = G.key(t)
+                if k not in seen:
+                    seen.add(k)
+                    items.append({'tree': t})
+                    n2 += 1
+        red3 = G.Enumerator(dict(_CFG, forms=('plain',), arities=(2,), **RED))
+        n3 = 0
+        for T in 'ir':
             ts = red3.exactly(T, 3)
             n3 += len(ts)
             items += [{'tree': t} for t in ts]
-        bound.update(max_operator_nodes=2, three_operator_trees=n3,
-                     three_operator_alphabet='reduced alphabet, plain binary nodes + unary minus, integer comparisons')
-        sub_types, sub_hosts, sim_sizes = 'ir', full, (1, 2)
+        bound.update(max_operator_nodes=2, two_operator_trees=n2,
+                     two_operator_alphabet='binary nodes on the full alphabet + 2-3 child nodes on the reduced alphabet',
+                     three_operator_trees=n3,
+                     three_operator_alphabet='integer and real trees, reduced alphabet, plain binary nodes + unary minus')
+        plain = G.Enumerator(dict(_CFG, forms=('plain',), arities=(2,)))
+        sub_types, sub_hosts, sim_sizes = 'ir', G.Enumerator(dict(_CFG, arities=(2,))), (1, 2)
     # closure under Loki's own tree builders (the statement names substitution and simplification)
     nsub = nsim = 0
     for T in sub_types:
